@@ -81,13 +81,14 @@ static void part1(Ctx& ctx, const KernelGroup& G, bool th) {
 static void part2_pointwise(Ctx& ctx, uint64_t m) {
   for (auto& k : pointwise_kernels()) {
     if (m < k.minm) continue;
-    for (int off = 0; off < 3; ++off) for (int rg = 0; rg < 2; ++rg) {
-      std::string id = sfmt("fp|%s|m=%llu|offset=%d|values=%s", k.name, (unsigned long long)m, off * 8 + (off == 2 ? 8 : 0), rg ? "special" : "dense");
+    for (int off = 0; off < 3; ++off) for (int rg = 0; rg < 3; ++rg) {
+      std::string id = sfmt("fp|%s|m=%llu|offset=%d|values=%s", k.name, (unsigned long long)m, off * 8 + (off == 2 ? 8 : 0), rg == 2 ? "extreme-combinations" : rg ? "special" : "dense");
       if (!ctx.want(id)) continue;
       ctx.begin_case(id);
       size_t o = off == 0 ? 0 : off == 1 ? 8 : 24;
       GBuf r(2 * m * 8, o), a(2 * m * 8, o), b(2 * m * 8, (o + 8) % 32);
-      for (uint64_t i = 0; i < 2 * m; ++i) { a.as<double>()[i] = val(i + m, rg); b.as<double>()[i] = val(i + 3 * m + 11, rg); r.as<double>()[i] = k.addmul ? val(i + 5 * m + 1, 0) : 0; }
+      for (uint64_t i = 0; i < 2 * m; ++i) { a.as<double>()[i] = val(i + m, rg == 2 ? 0 : rg); b.as<double>()[i] = val(i + 3 * m + 11, rg == 2 ? 0 : rg); r.as<double>()[i] = k.addmul ? val(i + 5 * m + 1, 0) : 0; }
+      if (rg == 2) extreme_triples(k.layout, m, r.as<double>(), a.as<double>(), b.as<double>());
       if (!k.addmul) prefill(r.p, r.bytes, 2);
       std::vector<double> r0(r.as<double>(), r.as<double>() + 2 * m);
       PCm pc{0, (int64_t)m};
